@@ -104,7 +104,7 @@ func checkC16(c *Ctx) {
 	r := c.Rep
 	p := c.Prog
 	r.Explain = "Bit-provenance abstract interpretation (checker/bits): every integer SSA value is a vector of bit sources (constant, bit k of a receiver field, bit k of an input octet, unknown); byte buffers map (stride, offset) to 8 sources; merge points use if-then-else on single-bit conditions; loop bodies are evaluated once with affine induction variables, so per-entry layouts are relative to the entry. For each unit the encoder yields wire bit <- field bit and the decoder yields field bit <- wire bit, for ALL values at once. C16-RT: composing the two maps is the identity on every field bit that reaches the wire, and every wire bit the decoder uses is one the encoder wrote from the same field bit (so encode-then-decode is the identity on values that fit the wire width, and decode-then-encode on the bits the unit owns). C16-ENC / C16-DEC: both maps equal the RFC layout table (position, width, big-endian order, constant bits). C16-CNT: Header.Marshal returns a nil error only with Count <= 31 (numeric engine). Version and length guards of Header.Unmarshal are C06-VER and C01."
-	r.RuleText = "C16-RT, C16-ENC, C16-DEC per unit; C16-CNT; C16-NR (not-received metric block decodes to zero fields)."
+	r.RuleText = "C16-RT, C16-ENC, C16-DEC per unit; C16-CNT; C16-NR (not-received metric block decodes to zero fields); C16-ACC (13 corner shapes of the units — fixed length, some octets fixed, the rest arbitrary — none of which the unit decoder may reject on every path: the decoder side of 'over the whole domain')."
 	r.Trusted = []string{"go/ssa", "bit-provenance engine checker/bits (transfer functions of & | ^ &^ << >> conversions, + on disjoint bits, power-of-two * / %, encoding/binary big-endian accessors, copy/append on tracked buffers)", "layout tables written from the RFCs (props/layout.go)", "numeric engine for C16-CNT"}
 	r.Assume = []string{"values wider than their wire field are outside the identity claim (C08 decides whether they are rejected)"}
 	r.NotCov("StatusVectorChunk.Marshal (symbol positions computed in a data-dependent loop through a map lookup; its decoder IS decided), RecvDelta (scaled arithmetic: C13-SCALE/WIDTH); for the XR RLE chunk accessors only the bit selections of each return are decided, not which return is taken for which chunk type")
@@ -152,6 +152,7 @@ func checkC16(c *Ctx) {
 		n, bad := decVsSpec(lr.u, lr.dec)
 		r.Check(len(bad) == 0 && n > 0, "C16-DEC", name+"/decoder-matches-"+unitKey(lr.u), dpos, fmt.Sprintf("%d field bits equal the layout of %s (the two constant-trip loops are unrolled)", n, lr.u.rfc), trunc(bad, 3))
 	}
+	c16Accept(c)
 	// not-received metric block: canonical zero fields
 	if lr := runs["CCFeedbackMetricBlock"]; lr != nil && lr.dec != nil {
 		ok := false
